@@ -449,7 +449,7 @@ func cmdCheck(args []string, writeLedger bool) {
 		if bc.Tier == "thorough" && *tier != "thorough" {
 			continue
 		}
-		r := runBounded(bc, prop, root, *tier, seed, replayDir)
+		r := runBounded(bc, prop, root, *tier, seed, replayDir, *repo)
 		boundedRes = append(boundedRes, r)
 		if r["ok"] != true {
 			violations++
